@@ -242,8 +242,9 @@ protected:
      */
    MUSCLE_NODISCARD ZLibCodec * GetReceiveCodec(int32 encoding) const
    {
-      // For receiving data, any ZLibCodec will do, so we'll just force it to the default codec-level
-      return GetCodec(muscleInRange((int32)encoding, (int32)MUSCLE_MESSAGE_ENCODING_ZLIB_1, (int32)MUSCLE_MESSAGE_ENCODING_ZLIB_9) ? MUSCLE_MESSAGE_ENCODING_ZLIB_6 : encoding, _recvCodec);
+      // The inflater must follow the sender's deflater:  when the sender's level changes (SetOutgoingEncoding()) the sender starts a new
+      // deflate stream with a new ZLibCodec, so we must start a new inflate stream too, exactly as MessageIOGateway::UnflattenHeaderAndMessage() does
+      return GetCodec(encoding, _recvCodec);
    }
 #endif
 
